@@ -18,6 +18,7 @@ type Emission struct {
 	Types   []string             // constant event types this site can emit (sorted); empty = unresolved
 	Payload string               // named payload type, e.g. "ergo.StateEvent"
 	Fields  map[string]ssa.Value // payload field -> stored value (composite literal)
+	Stores  map[string][]ssa.Value // every value stored into the field (reassignments after the literal)
 	Lit     *ssa.Alloc           // the literal's cell, if any
 	Ordinal map[string]int       // per event type: 1-based ordinal within Fn in source order
 }
@@ -39,7 +40,7 @@ func (c *Ctx) emissions() []*Emission {
 		sourceOrder(calls)
 		counts := map[string]int{}
 		for _, cv := range calls {
-			em := &Emission{Fn: fn, Call: cv, Fields: map[string]ssa.Value{}, Ordinal: map[string]int{}}
+			em := &Emission{Fn: fn, Call: cv, Fields: map[string]ssa.Value{}, Stores: map[string][]ssa.Value{}, Ordinal: map[string]int{}}
 			em.Types = c.constStrings(cv.Call.Args[0], 0, map[ssa.Value]bool{})
 			if len(cv.Call.Args) >= 3 {
 				em.decodePayload(cv.Call.Args[2])
@@ -69,6 +70,23 @@ func (em *Emission) decodePayload(v ssa.Value) {
 		return
 	}
 	em.Lit = lit
+	em.decodeLit(lit, 0)
+}
+
+// decodeLit collects field stores of a literal cell, first following whole-struct copies from another literal.
+func (em *Emission) decodeLit(lit *ssa.Alloc, depth int) {
+	if depth > 3 {
+		return
+	}
+	for _, r := range *lit.Referrers() {
+		if st, ok := r.(*ssa.Store); ok && st.Addr == lit {
+			if ld, ok := st.Val.(*ssa.UnOp); ok && ld.Op == token.MUL {
+				if src, ok := ld.X.(*ssa.Alloc); ok {
+					em.decodeLit(src, depth+1)
+				}
+			}
+		}
+	}
 	for _, r := range *lit.Referrers() {
 		fa, ok := r.(*ssa.FieldAddr)
 		if !ok {
@@ -77,12 +95,8 @@ func (em *Emission) decodePayload(v ssa.Value) {
 		name := fieldName(lit.Type(), fa.Field)
 		for _, u := range *fa.Referrers() {
 			if st, ok := u.(*ssa.Store); ok && st.Addr == fa {
-				// the last store wins textually; keep the one closest before the load
-				if prev, dup := em.Fields[name]; dup {
-					_ = prev
-					em.Fields[name+"#reassigned"] = st.Val
-				}
 				em.Fields[name] = st.Val
+				em.Stores[name] = append(em.Stores[name], st.Val)
 			}
 		}
 	}
